@@ -1,7 +1,7 @@
 (** C03 — Constant expressions follow Go's exact constant semantics.
     Only theorem statements, each closed by [exact] of a lemma of Const/Proofs.v.
     Y = Const/YaegiConst.v (yaegi's constant machinery), G = Const/ConstSem.v (the Go specification). *)
-From Verif Require Import Const.Model Const.Proofs.
+From Verif Require Import Const.Model Const.Proofs Const.FloatProofs.
 Open Scope Z_scope.
 
 (** The property at full strength (false of the faithful model today, see the [_refuted] theorems):
@@ -229,3 +229,93 @@ Theorem C03_typed_use_boundary_refuted :
   /\ g_run (one_const true (Some TInt32) (EBin BShl (EInt 1) (EInt 40))) = Rejected.
 Proof. exact typed_use_boundary_witness. Qed.
 Print Assumptions C03_typed_use_boundary_refuted.
+
+(** ------------------------------------------------------------------
+    The enlarged untyped fragment: floating-point constants (exact rationals: 1.5, 1e3, 0x1p-2)
+    with + - * / and unary + -, mixed with integer and rune operands (the result takes the larger
+    kind, int < rune < float; the quotient truncates only when both operands are of an integer kind,
+    is exact otherwise; a zero divisor is rejected; % & | ^ &^ and unary ^ on a floating-point kind
+    are rejected), together with everything of [C03_untyped].  For all trees, of any depth, over
+    literals of any magnitude: one visit by yaegi yields exactly the kind and the exact value of
+    the specification, and rejects exactly when the specification rejects. *)
+Theorem C03_untyped_float :
+  forall e k iota, frf e = Some k ->
+    y_eval iota e = match g_eval [] iota e with Some c => g_as_y c | None => Err end.
+Proof. exact untyped_float_agree. Qed.
+Print Assumptions C03_untyped_float.
+
+(** the fragment of [C03_untyped] is contained in it, with the same kinds *)
+Theorem C03_untyped_float_extends : forall e k, fr e = Some k -> frf e = Some k.
+Proof. exact frf_extends. Qed.
+Print Assumptions C03_untyped_float_extends.
+
+(** non-vacuity: (1.5 + 3/2) * 0x1p-2 / 'a' - 1e3 is in the new fragment only and is -775995/776;
+    0.5 / (2 - 2.0) and 7.0 % 2 are in the fragment and rejected *)
+Example C03_untyped_float_inhabited :
+  frf ex_float = Some UFloat /\ fr ex_float = None
+  /\ g_eval [] 0 ex_float = Some (GU UFloat, GQ (-775995 # 776))
+  /\ frf (EBin BQuo (EFloat (1 # 2)) (EBin BSub (EInt 2) (EFloat (2 # 1)))) = Some UFloat
+  /\ g_eval [] 0 (EBin BQuo (EFloat (1 # 2)) (EBin BSub (EInt 2) (EFloat (2 # 1)))) = None
+  /\ frf (EBin BRem (EFloat (7 # 1)) (EInt 2)) = Some UFloat
+  /\ g_eval [] 0 (EBin BRem (EFloat (7 # 1)) (EInt 2)) = None.
+Proof. exact untyped_float_inhabited. Qed.
+Print Assumptions C03_untyped_float_inhabited.
+
+(** what the fragment leaves out is where one visit of yaegi differs from the specification:
+    1.0 << 3 keeps the floating-point kind (region float-shift), 'a' / 2 takes the kind of the divisor
+    (quo-no-unify), 1.5 < 2 is accepted but has no value (const-compare: const c = 1.5 < 2 is false) *)
+Theorem C03_untyped_float_boundary_refuted :
+  (frf (EBin BShl (EFloat (1 # 1)) (EInt 3)) = None
+   /\ y_eval 0 (EBin BShl (EFloat (1 # 1)) (EInt 3)) = Ok (u_float, Some (VC (CInt 8)))
+   /\ g_eval [] 0 (EBin BShl (EFloat (1 # 1)) (EInt 3)) = Some (GU UInt, GI 8))
+  /\ (frf (EBin BQuo (ERune 97) (EInt 2)) = None
+      /\ y_eval 0 (EBin BQuo (ERune 97) (EInt 2)) = Ok (u_int, Some (VC (CInt 48)))
+      /\ g_eval [] 0 (EBin BQuo (ERune 97) (EInt 2)) = Some (GU URune, GI 48))
+  /\ (frf (EBin BLt (EFloat (3 # 2)) (EInt 2)) = None
+      /\ y_eval 0 (EBin BLt (EFloat (3 # 2)) (EInt 2)) = Ok (typed TBool, None)
+      /\ g_eval [] 0 (EBin BLt (EFloat (3 # 2)) (EInt 2)) = Some (GU UBool, GB true)
+      /\ y_run (one_const true None (EBin BLt (EFloat (3 # 2)) (EInt 2))) = Printed [(TBool, OB false)]
+      /\ g_run (one_const true None (EBin BLt (EFloat (3 # 2)) (EInt 2))) = Printed [(TBool, OB true)]).
+Proof. exact float_boundary_refuted. Qed.
+Print Assumptions C03_untyped_float_boundary_refuted.
+
+(** Constants of the enlarged fragment meeting a typed numeric destination (every integer type,
+    float32, float64) through typecheck.assignment -> convertUntyped -> representableConst +
+    convertConst (const c T = k, var v T = k, an untyped operand unified with a typed one).
+    For all trees e of numeric kind and all numeric types t: after one visit of e, the assignment
+    yields exactly the typed value of the specification — an integer destination accepts the
+    value only when it is an integer ("constant truncated" otherwise) inside the range of t
+    (overflow rejected), a floating-point destination gets the exact rational rounded once to
+    nearest even in the format of t ([round_t] of Const/Base.v) or rejects an overflow — outside
+    the regions signed-bitlen (t is int8, int16 or int32) and float-negzero (a non-zero constant
+    that rounds to zero): [dest_ok]. *)
+Theorem C03_typed_dest_float_partial :
+  forall e k iota t, frf e = Some k -> numk k = true -> is_number t = true -> dest_ok iota e t = true ->
+    y_eval_assign iota e t = g_eval_assign iota e t.
+Proof. exact typed_dest_agree. Qed.
+Print Assumptions C03_typed_dest_float_partial.
+
+Example C03_typed_dest_float_inhabited :
+  (dest_ok 0 (EBin BMul (EFloat (5 # 2)) (EInt 4)) TUint8 = true
+   /\ g_eval_assign 0 (EBin BMul (EFloat (5 # 2)) (EInt 4)) TUint8 = Ok (typed TUint8, Some (VM TUint8 (MI 10))))
+  /\ g_eval_assign 0 (EBin BAdd (EFloat (3 # 2)) (EBin BQuo (EInt 3) (EInt 2))) TInt64 = Err
+  /\ g_eval_assign 0 (EFloat (1000 # 1)) TUint8 = Err
+  /\ (dest_ok 0 (EBin BAdd (EFloat (16777217 # 16777216)) (EFloat (1 # 1152921504606846976))) TFloat32 = true
+      /\ g_eval_assign 0 (EBin BAdd (EFloat (16777217 # 16777216)) (EFloat (1 # 1152921504606846976))) TFloat32
+         = Ok (typed TFloat32, Some (VM TFloat32 (MF (FQ (8388609 # 8388608))))))
+  /\ g_eval_assign 0 (EBin BMul (EFloat (1000000000000000000000 # 1)) (EFloat (1000000000000000000 # 1))) TFloat32 = Err.
+Proof. exact typed_dest_inhabited. Qed.
+Print Assumptions C03_typed_dest_float_inhabited.
+
+(** the side conditions are the regions: int8(200.0)-like destinations take -56, a negative constant
+    below the float64 denormals becomes -0 *)
+Theorem C03_typed_dest_float_refuted :
+  (frf (EFloat (200 # 1)) = Some UFloat /\ dest_ok 0 (EFloat (200 # 1)) TInt8 = false
+   /\ y_eval_assign 0 (EFloat (200 # 1)) TInt8 = Ok (typed TInt8, Some (VM TInt8 (MI (-56))))
+   /\ g_eval_assign 0 (EFloat (200 # 1)) TInt8 = Err)
+  /\ (frf (EUn UNeg (EFloat (1 # Pos.pow 2 1100))) = Some UFloat
+      /\ dest_ok 0 (EUn UNeg (EFloat (1 # Pos.pow 2 1100))) TFloat64 = false
+      /\ y_eval_assign 0 (EUn UNeg (EFloat (1 # Pos.pow 2 1100))) TFloat64 = Ok (typed TFloat64, Some (VM TFloat64 (MF FNZ)))
+      /\ g_eval_assign 0 (EUn UNeg (EFloat (1 # Pos.pow 2 1100))) TFloat64 = Ok (typed TFloat64, Some (VM TFloat64 (MF (FQ (0 # 1)))))).
+Proof. exact typed_dest_refuted. Qed.
+Print Assumptions C03_typed_dest_float_refuted.
